@@ -187,6 +187,28 @@ func mkBin(op string, a, b *Term) *Term {
 			}
 		}
 	}
+	// a quantity that cannot be negative compared with a constant: the index of a range loop is at least -1 before
+	// its increment (1 + index >= 0), the counter of `for range n` and any length are at least 0
+	if op == "<" || op == "<=" || op == ">" || op == ">=" {
+		x, y, o := a, b, op
+		if o == ">" {
+			x, y, o = b, a, "<"
+		} else if o == ">=" {
+			x, y, o = b, a, "<="
+		}
+		if k, ok := y.IntConst(); ok && lowerBoundZero(x) {
+			// x o k with x >= 0
+			if o == "<" && k <= 0 || o == "<=" && k < 0 {
+				return False
+			}
+		}
+		if k, ok := x.IntConst(); ok && lowerBoundZero(y) {
+			// k o y with y >= 0
+			if o == "<" && k < 0 || o == "<=" && k <= 0 {
+				return True
+			}
+		}
+	}
 	// freshly made objects are never nil: make(chan ..), make(map ..), make([]T ..), new / &T{}, function values
 	if op == "==" || op == "!=" {
 		nonNil := func(t *Term) bool {
@@ -276,6 +298,36 @@ func mkBin(op string, a, b *Term) *Term {
 		op, a, b = "<=", b, a
 	}
 	return &Term{Op: "bin", Aux: op, Args: []*Term{a, b}}
+}
+
+// lowerBoundZero: t >= 0 by construction.
+func lowerBoundZero(t *Term) bool {
+	switch {
+	case t == nil:
+		return false
+	case t.Op == "len" || t.Op == "cap":
+		return true
+	case t.Op == "phi" && strings.HasSuffix(t.Aux, ":rangeint.iter"):
+		return true
+	case t.Op == "bin" && t.Aux == "+":
+		// 1 + rangeindex, or a sum of non-negative terms
+		sum := int64(0)
+		idx := 0
+		for _, x := range t.Args {
+			if k, ok := x.IntConst(); ok {
+				sum += k
+			} else if x.Op == "phi" && strings.HasSuffix(x.Aux, ":rangeindex") {
+				idx++
+			} else if !lowerBoundZero(x) {
+				return false
+			}
+		}
+		return idx <= 1 && sum-int64(idx) >= 0
+	}
+	if k, ok := t.IntConst(); ok {
+		return k >= 0
+	}
+	return false
 }
 
 func boolT(b bool) *Term {
